@@ -164,6 +164,11 @@ package parsley
 //@ -- and reads it before the next one, so nested combinators may reuse it)
 //@ ghost GhostLastNode Node
 //@ -- likewise: the curtailing set the last Parser call returned, and the union a combinator has accumulated so far
+//@ -- the furthest position of an error that the Parser calls made by the current activation have returned and
+//@ -- that the activation has to keep (-1: none yet); saved and restored around every activation like the window.
+//@ -- GhostBestOut: its value when the last activation returned (for that activation's own postconditions)
+//@ ghost GhostBest Pos
+//@ ghost GhostBestOut Pos
 //@ ghost GhostLastCp data.IntSet
 //@ ghost GhostCpAcc data.IntSet
 
@@ -300,13 +305,16 @@ package parsley
 //@   ensures  [PC6;C06] err != nil ==> err.Pos() <= GhostMaxFail
 //@   ensures  [mono] (old(GhostCurtailed) ==> GhostCurtailed) && GhostMaxFail >= old(GhostMaxFail) && GhostCalls > old(GhostCalls)
 //@   ensures  [floor;C02] GhostFloorPos == old(GhostFloorPos) && same(GhostFloorLrc, old(GhostFloorLrc))
-//@   assigns  ctx.err, ctx.callCount, maps[ResultCache](), maps[map[Pos]*Result](), maps[map[string]*regexp.Regexp](), GhostCurtailed, GhostMaxFail, GhostCalls, GhostFloorPos, GhostFloorLrc, GhostLo, GhostHi, GhostSeqMark, GhostSpare, GhostLastNode, GhostLastCp, GhostCpAcc
-//@   ensures  [window] GhostLo == old(GhostLo) && GhostHi == old(GhostHi) && GhostSeqMark == old(GhostSeqMark)
+//@   assigns  ctx.err, ctx.callCount, maps[ResultCache](), maps[map[Pos]*Result](), maps[map[string]*regexp.Regexp](), GhostCurtailed, GhostMaxFail, GhostCalls, GhostFloorPos, GhostFloorLrc, GhostLo, GhostHi, GhostSeqMark, GhostSpare, GhostLastNode, GhostLastCp, GhostCpAcc, GhostBest, GhostBestOut
+//@   ensures  [window] GhostLo == old(GhostLo) && GhostHi == old(GhostHi) && GhostSeqMark == old(GhostSeqMark) && GhostBest == old(GhostBest)
 //@   ghost_entry GhostLo = pos
 //@   ghost_entry GhostHi = Eof(ctx.reader, pos)
 //@   ghost_return GhostLo = old(GhostLo)
 //@   ghost_return GhostHi = old(GhostHi)
 //@   ghost_entry GhostCalls = GhostCalls + 1
+//@   ghost_entry GhostBest = -1
+//@   ghost_return GhostBestOut = GhostBest
+//@   ghost_return GhostBest = old(GhostBest)
 //@   ghost_entry GhostFloorPos = pos
 //@   ghost_entry GhostFloorLrc = lrc
 //@   ghost_return GhostFloorPos = old(GhostFloorPos)
